@@ -21,6 +21,8 @@ def content_material(m):
 def content_isotherm(iso):
     d = iso.to_dict()
     d.pop("material", None)
+    if hasattr(iso, "model") and hasattr(iso, "branch"):
+        d["branch"] = iso.branch        # what the object says, whether or not to_dict() mentions it
     out = {"type": type(iso).__name__, "d": dg.canon(d), "mname": str(iso.material),
            "mat": dg.canon(iso.material.to_dict()), "aname": str(iso.adsorbate),
            "ads": dg.canon(iso.adsorbate.to_dict())}
